@@ -349,6 +349,14 @@ def known_match(case, failure, entry):
 
 
 # ------------------------------------------------------------------------------ bounded-exhaustive chunk shapes
+def _pool_init():
+    import atexit, shutil
+    from h4verif import exe
+    root = exe.scratch_root()
+    import multiprocessing.util as mu
+    mu.Finalize(None, shutil.rmtree, args=(root, True), exitpriority=1)
+
+
 def extra(tier, seed, ctx):
     if tier != "thorough":
         return {}
@@ -372,7 +380,7 @@ def extra(tier, seed, ctx):
                           "configs": cfgs, "full_seed": 1})
     viol, n, nth = [], 0, set()
     from h4verif.runner import write_replay
-    with cf.ProcessPoolExecutor(16) as ex:
+    with cf.ProcessPoolExecutor(16, initializer=_pool_init) as ex:
         for case, res in zip(cases, ex.map(run_case, cases, chunksize=4)):
             n += 1
             if nontrivial(res.labels):
